@@ -305,6 +305,25 @@ theorem plan_of_served {fe : FsEnv} {path : Bytes} {hs : HeaderMap} {loc : List 
   · intro hk; rw [hk]
   · intro hk; rw [hk]; exact ⟨_, rfl⟩
 
+/-- `C07_decode_all`: the statement is about the string after both decodings, so singly and
+    doubly percent-encoded dots and slashes are covered by the quantifier: for EVERY path handed to
+    `process` (any bytes, any encoding), whatever `process` decides to serve — as a file or as a
+    directory listing — lies inside the document root and exists. -/
+theorem plan_contained (fe : FsEnv) (path : Bytes) (hs : HeaderMap) (hroot : Fs.CleanAbs fe.root = true) :
+    match plan fe path hs with
+    | .notFound => True
+    | .dir loc _ => Fs.locOf fe.root <+: loc ∧ Fs.kindAt fe.tree loc ≠ none
+    | .file loc _ => Fs.locOf fe.root <+: loc ∧ Fs.kindAt fe.tree loc ≠ none := by
+  obtain ⟨_, hpd, hpf⟩ := plan_served (fe := fe) (path := path) (hs := hs)
+  cases hplan : plan fe path hs with
+  | notFound => trivial
+  | dir loc d =>
+    have h := (hpd loc d hplan).1
+    exact ⟨contained _ _ _ hroot h, Fs.served_exists _ _ _ h⟩
+  | file loc r =>
+    have h := hpf loc r hplan
+    exact ⟨contained _ _ _ hroot h, Fs.served_exists _ _ _ h⟩
+
 /-- every existing location inside the root: files fit one copy block, MIME type names are
     CR-free -/
 def okFiles (fe : FsEnv) : Bool :=
